@@ -313,7 +313,7 @@ def run(repo):
                 raise AnalysisError('%s: scenario loop not found' % fq)
             svars = {l.target.id for l in scen_loops}
             subs = [n for n in ast.walk(call.args[0]) if isinstance(n, ast.Subscript)]
-            binds = fa.bindings.get(call.args[0].id, []) if isinstance(call.args[0], ast.Name) else []
+            binds = fa.bindings_of(call.args[0])
             for b in binds:
                 subs += [n for n in ast.walk(b) if isinstance(n, ast.Subscript)]
             for sb in subs:
